@@ -568,6 +568,65 @@ fn sw_aliases(a: &mut Acc, b: &[u8]) {
                    (b[..4] == [0, 0, 0, 0], [b[0], b[1], b[2], b[3]], std::net::Ipv4Addr::new(b[0], b[1], b[2], b[3]), g));
         }
     }
+    // helper getters that restate what another accessor of the same value says
+    if let Ok((h, _)) = Ipv4Header::from_slice(b) {
+        a.same("Ipv4Header::max_payload_len", h.max_payload_len() as usize, 65535 - h.header_len());
+        a.same("Ipv4Options::len_u8", (h.options.len_u8() as usize, h.options.is_empty()), (h.options.len(), h.options.as_slice().is_empty()));
+        a.same("Ipv4Options::len", h.options.len(), h.options.as_slice().len());
+    }
+    if let Ok((h, _)) = TcpHeader::from_slice(b) {
+        a.same("TcpOptions::len_u8", (h.options.len_u8() as usize, h.options.is_empty()), (h.options.len(), h.options.as_slice().is_empty()));
+        a.same("TcpOptions::len", h.options.len(), h.options.as_slice().len());
+    }
+    // the two payload views of a link slice: same bytes; the SLL view of an Ethernet payload names its ether type, the ether view of an
+    // SLL payload exists exactly when the protocol type is an ether type
+    for sll in [false, true] {
+        let r = if sll { SlicedPacket::from_linux_sll(b).ok() } else { SlicedPacket::from_ethernet(b).ok() };
+        if let Some(l) = r.and_then(|p| p.link) {
+            let sp = l.sll_payload();
+            a.s(sp.payload);
+            match l.ether_payload() {
+                Some(ep) => {
+                    let et = match sp.protocol_type {
+                        LinuxSllProtocolType::EtherType(e) => Some(e.0),
+                        LinuxSllProtocolType::LinuxNonstandardEtherType(e) => Some(u16::from(e)),
+                        _ => None,
+                    };
+                    a.same("LinkSlice::sll_payload", (et, a.ctx.rg(sp.payload)), (Some(ep.ether_type.0), a.ctx.rg(ep.payload)));
+                }
+                None => a.same("LinkSlice::sll_payload", matches!(sp.protocol_type, LinuxSllProtocolType::EtherType(_) | LinuxSllProtocolType::LinuxNonstandardEtherType(_)), false),
+            }
+            if !sll {
+                a.same("LinkSlice::sll_payload:eth", matches!(sp.protocol_type, LinuxSllProtocolType::EtherType(_)), true);
+            }
+        }
+    }
+    // LinuxSllProtocolType::change_value keeps the kind of the value and stores the number
+    if b.len() >= 4 {
+        let v = u16::from_be_bytes([b[2], b[3]]);
+        let w = u16::from_be_bytes([b[0], b[1]]);
+        for mut p in [LinuxSllProtocolType::Ignored(w), LinuxSllProtocolType::NetlinkProtocolType(w), LinuxSllProtocolType::GenericRoutingEncapsulationProtocolType(w),
+                      LinuxSllProtocolType::EtherType(EtherType(w))] {
+            let before = std::mem::discriminant(&p);
+            let ether = matches!(p, LinuxSllProtocolType::EtherType(_));
+            p.change_value(v);
+            a.same("LinuxSllProtocolType::change_value", u16::from(p), v);
+            if ether {
+                a.same("LinuxSllProtocolType::change_value:kind", matches!(p, LinuxSllProtocolType::EtherType(_) | LinuxSllProtocolType::LinuxNonstandardEtherType(_)), true);
+            } else {
+                a.same("LinuxSllProtocolType::change_value:kind", std::mem::discriminant(&p), before);
+            }
+        }
+    }
+    // names of protocol numbers: total over the whole domain (rendering is part of totality)
+    if !b.is_empty() {
+        a.d(IpNumber(b[0]).keyword_str()); a.d(IpNumber(b[0]).protocol_str());
+        a.d(icmpv6::NdpOptionType(b[0]).keyword_str());
+        a.same("LenError::add_offset", {
+            let e = err::LenError { required_len: 9, len: 4, len_source: LenSource::Ipv6HeaderPayloadLen, layer: err::Layer::UdpHeader, layer_start_offset: b[0] as usize };
+            e.add_offset(b.len())
+        }, err::LenError { required_len: 9, len: 4, len_source: LenSource::Ipv6HeaderPayloadLen, layer: err::Layer::UdpHeader, layer_start_offset: b[0] as usize + b.len() });
+    }
     // a length limited reader reports what it was created with
     let r = io::LimitedReader::new(std::io::Cursor::new(b), b.len() / 2, LenSource::Ipv4HeaderTotalLen, 7, err::Layer::Ipv4Packet);
     a.same("LimitedReader getters", (r.max_len(), r.len_source(), r.layer(), r.layer_offset(), r.read_len()), (b.len() / 2, LenSource::Ipv4HeaderTotalLen, err::Layer::Ipv4Packet, 7, 0));
